@@ -7,7 +7,7 @@ if [ -n "$(git -C /repo status --porcelain)" ]; then echo "REFUSING: /repo worki
 FAIL=0
 only=${1:-}
 echo "== unchanged tree"
-for cfg in checks/*.json; do id=$(basename $cfg .json); [ -n "$only" ] && [ "$only" != "$id" ] && continue
+for cfg in checks/*.json; do id=$(basename $cfg .json)
   out=$(bin/check $id 2>&1); rc=$?
   if [ $rc -ne 0 ]; then echo "BROKEN $id on unchanged tree (exit $rc)"; echo "$out" | grep -v "^KNOWN" | tail -5; FAIL=1; else echo "ok   $id $(echo "$out" | tail -1 | cut -d: -f2- | cut -c1-80)"; fi
 done
